@@ -11,6 +11,7 @@ EXPLANATION = (
     "(store into outgoing_pub, inflight += 1, announce Outgoing::Publish, reset collision_ping_count), and takes the collision only on a path that sends it; "
     "(R-C02-record-before-send) in outgoing_publish every path that returns Packet::Publish for QoS>0 stored a copy in outgoing_pub first, and the only path that keeps the publish without sending it stores it in `collision`; "
     "(R-C02-clean-on-error) in EventLoop::poll the Err edge of select() passes through EventLoop::clean, every path of which moves MqttState::clean()'s packets into `pending` (their position in the queue is R-C11-first); "
+    "(R-C02-cancel-safe) in next_request (a select! arm) no await point is reachable after pending.pop_front(), so a cancelled poll cannot drop a carried-over request; "
     "(R-C02-release-roles) outgoing_pub / outgoing_rel are emptied only by the PUBACK/PUBREC/PUBCOMP handlers and clean(). "
     "NOT decided: loss at specific crash points of the byte stream, framed-buffer contents at failure, broker-side session semantics.")
 ASSUMPTIONS = ["rustc MIR construction is correct"]
@@ -29,6 +30,7 @@ def run(ctx):
         ctx.guarded("R-C02-record-before-send", record, ctx, prog, ver)
         ctx.guarded("R-C02-clean-on-error", clean_on_error, ctx, prog, ver)
         ctx.guarded("R-C02-release-roles", roles, ctx, prog, ver)
+        ctx.guarded("R-C02-cancel-safe", cancel_safe, ctx, prog, ver)
 
 
 def drain(ctx, prog, ver):
@@ -363,3 +365,23 @@ def roles(ctx, prog, ver):
                     ctx.violation(rule, body.id, kind, "a stored publish / pending release is removed outside the ack handlers and clean()", site=body.loc(t.get("sp")))
     ctx.floor(rule, "removal sites (%s)" % ver, n, 4)
     ctx.ok(rule, dict((v[0], v[1]) for v in VERSIONS)[ver] + "*", "%d removal sites, all in ack handlers / clean" % n)
+
+
+def cancel_safe(ctx, prog, ver):
+    """next_request() is one arm of the event loop's select!: its future is dropped whenever another arm
+    completes first.  A request taken out of `pending` must therefore be returned in the same poll — no await
+    point (yield in the pre-lowering MIR) may be reachable after `pending.pop_front()`."""
+    rule = "R-C02-cancel-safe"
+    pre = dict((v[0], v[2]) for v in VERSIONS)[ver]
+    nr = prog.one("^" + re.escape(pre) + r"next_request::\{closure#0\}$")
+    pops = [bb for bb, t in nr.calls() if re.search(r"VecDeque::<T, A>::(pop_front|pop_back|remove|drain|swap_remove_front|swap_remove_back)$", callee_path(t)) and not nr.is_cleanup(bb)]
+    yields = [bi for bi, b in enumerate(nr.blocks) if b["t"]["k"] == "yield" and not b.get("cleanup")]
+    if not pops or not yields:
+        raise AnchorMissing("next_request (%s): pop_front / await points not found (%d/%d)" % (ver, len(pops), len(yields)))
+    late = sorted(set(yields) & reachable_after(nr, pops))
+    if late:
+        ctx.violation(rule, nr.id, "await after pending.pop_front()",
+                      "next_request awaits after it has taken a request out of `pending`: when another select! arm wins during that await the future is dropped together with the request, so an unacknowledged publish / release of the old session is never retransmitted",
+                      site=nr.loc(nr.blocks[late[0]]["t"].get("sp")))
+    else:
+        ctx.ok(rule, nr.id, "no await point is reachable after pending.pop_front() (%d await points, all before)" % len(yields), site=nr.loc(nr.blocks[pops[0]]["t"].get("sp")))
